@@ -373,6 +373,8 @@ def r12_11(ctx) -> None:
 
 
 def run(ctx) -> None:
+    from .common import forwarding_discipline
+    ctx.guard(forwarding_discipline, "R12.12", ['private', 'password', 'encoding', 'params'], 21)  # arguments are handed on under their own name (generic routing rule, rules/common.py)
     ctx.guard(r12_11)
     # a key's JWK view holds only its own material: no method of a key class writes into an object shared with other keys / the caller
     from .c20 import r20_1, key_class_functions
